@@ -314,10 +314,23 @@ class Impl(object):
                              for blk in blocks]
         return ctr
 
+    @staticmethod
+    def reset_sticky_block_numbers():
+        ''' ``CanonicalBlock() / PreviousNodeBlock(...)`` shares the class-level scapy overload dict, and
+        BundleContainer._fix_blk_num() writes the chosen block number into it: the number sticks for every
+        later block of that type in the process (reported separately, not a C05 matter).  Cleared here so
+        that every send request is observed as the first one of a process (replays are then identical). '''
+        from bp.encoding import CanonicalBlock
+        for (_fval, cls) in list(getattr(CanonicalBlock, 'payload_guess', [])):
+            over = (getattr(cls, '_overload_fields', None) or {}).get(CanonicalBlock)
+            if isinstance(over, dict):
+                over.pop('block_num', None)
+
     def run(self, case, mtu):
         ''' One send request on a route with ``mtu``. :return: dict(tx=[octets], exc, escaped, reports) '''
         policy = bool(case.get('policy'))
         drv = self.driver(policy, fresh=bool(case.get('fresh_agent')))
+        self.reset_sticky_block_numbers()
         drv.cfg.tx_route_table[0].mtu = mtu
         mark = len(drv.transmitted)
         res = dict(exc=None)
@@ -394,7 +407,7 @@ def grid(quick):
     for (path, ext) in (('local', 'none'), ('fwd', 'repl')):
         probe = base_case(path, 300, ext=EXT_SETS[ext])
         top = ref_size(probe) + (40 if path == 'fwd' else 0) + 3
-        step = 1 if (path == 'local' or not quick) else 3
+        step = (1 if path == 'local' else 3) if not quick else (2 if path == 'local' else 5)
         for mtu in range(48, top, step):
             add(dict(probe, mtu=mtu), 'sweep300-' + path)
     # B. payload lengths at the head boundaries, MTUs that put fragment lengths at the boundaries
@@ -408,8 +421,8 @@ def grid(quick):
                         over - 5, over, over + 3, over + 8, over + 12, 1, 30}
                 if plen >= 254:
                     mtus |= {over + 254 + d for d in range(-3, 8)}
-                if quick and crc != 2:
-                    mtus = set(sorted(mtus)[::2])
+                if quick:
+                    mtus = set(sorted(mtus)[(crc + (path == 'fwd')) % 2::2]) | {size - 1, size}
                 for mtu in sorted(val for val in mtus if val > 0):
                     add(dict(probe, mtu=mtu), 'boundary')
     # C. extension-block sets with and without the replicate flag, both origins, all CRC types
@@ -716,6 +729,8 @@ ASSUMPTIONS = [
     'transmitted length (CRC placeholders have the final width)',
     'outside the model: duplicate block numbers, administrative-record payloads, EIDs altered by the text conversion, routes without a CL object, '
     'bundles without a payload block (modelled as NoPayload = sent as is; not generated)',
+    'the process-wide sticky block numbers of blocks built as CanonicalBlock()/X (scapy overload dict shared by the class) are cleared before '
+    'every run: each send request is observed as the first one of a process',
     'security policy: the BPSec apply step is abstract in the theorems (any bundle transformer); the implementation is run with the default policy '
     'shape (sign the payload of own-source bundles) and an HMAC-256 key',
 ]
@@ -765,8 +780,6 @@ def main():
     (corr_ok, detail, nfail) = run_cases(cases, 'grid')
     (gen_ok, gen_detail) = check_gen()
 
-    if (not props_ok or not corr_ok or not tr_ok or not gen_ok) and nfail == 0 and not quick is False:
-        pass
     if (not props_ok or not corr_ok or not gen_ok or not tr_ok) and not any(sig != SIG_SEC for sig in viol_counts):
         # a tie or a proof broke and the oracle has not failed yet: search at 10x the budget (DESIGN section 4)
         more = [case for case in grid(False) if case_key(case) not in seen][:10 * max(1, len(cases))]
